@@ -13,7 +13,7 @@ from mc import util
 
 ID = 'C18'
 LEVEL = 'exploration'
-RULE = ('expressions = 19 forms (call with positional / keyword / starred arguments, attribute, subscript, 2- and 3-part slices, '
+RULE = ('expressions = 22 forms (call with positional / keyword / starred arguments, attribute, subscript, 2- and 3-part slices, '
         'binary, unary, single compare, list / tuple / set / dict display, displays with * and ** unpacking, and the lazy forms and / or / ifexp / lambda / '
         'comprehension / chained compare) with a traced call t(i) in every operand position; depth 2 = one nested form at each '
         'operand position (thorough: depth 3); statement positions = expr, assign to name / attribute / subscript / tuple, '
@@ -40,6 +40,10 @@ FORMS = [
     ('and', '(%s and %s)', 2, True), ('or', '(%s or %s)', 2, True), ('ifexp', '(%s if %s else %s)', 3, True),
     ('cmpchain', '(%s < %s < %s)', 3, True), ('cmpchain_names', '(x < y < %s)', 1, True), ('and_name', '(x and %s)', 1, True),
     ('ifexp_name', '(%s if x else y)', 1, True), ('lambda', '(lambda: %s)', 1, True), ('listcomp', '[%s for j in %s]', 2, True),
+    # lazy forms with trivial operands only (accepted as they are): what follows them inside an enclosing lazy form is still lazy
+    ('and_trivial', '(x and y)', 0, True), ('ifexp_trivial', '(x if y else x)', 0, True),
+    # Ellipsis subscript of a plain name
+    ('ellip', 'x[...]', 0, False),
 ]
 STRICT_FORMS = [f for f in FORMS if not f[3]]
 LAZY_FORMS = [f for f in FORMS if f[3]]
@@ -153,6 +157,47 @@ def items(tier, seed):
     for cfg in CONFIGS[1:]:
       for sname in ('assign', 'if', 'expr'):
         yield (sname, desc, cfg)
+  for it in seq_items():
+    yield it
+
+
+def seq_items():
+  """The same live function object transformed twice (parser.parse_entity each time) under two configurations."""
+  for name, tmpl, n, lazy in FORMS:
+    for sname in ('assign', 'return', 'if'):
+      for ca in CONFIGS:
+        for cb in CONFIGS:
+          if ca != cb:
+            yield ('seq', sname, (name,), ca, cb)
+
+
+def check_seq(item):
+  from malt.pyct.common_transformers import anf
+  from malt.pyct import parser
+  import linecache
+  _, sname, desc, ca, cb = item
+  src = source((sname, desc, ca))
+  fname = '<c18seq_%s_%s_%s_%s>' % (sname, desc[0], ca, cb)
+  linecache.cache[fname] = (len(src), None, src.splitlines(True), fname)
+  g = {}
+  try:
+    exec(compile(src, fname, 'exec'), g)  # pylint:disable=exec-used
+    f = g['f']
+
+    def tr(node, cfg):
+      try:
+        return ast.unparse(anf.transform(node, simple_context(), config=make_config(cfg)))
+      except ValueError:
+        return 'ValueError'
+    first = tr(parser.parse_entity(f, ())[0], ca)
+    second = tr(parser.parse_entity(f, ())[0], cb)
+    fresh = tr(ast.parse(src).body[0], cb)
+  finally:
+    linecache.cache.pop(fname, None)
+  viol = []
+  if second != fresh:
+    viol.append(('second-transformation-differs', 'after the function was transformed under %s, transforming it again under %s gives\n%s\ninstead of\n%s' % (ca, cb, second, fresh)))
+  return src, viol, first
 
 
 def spec_of(desc):
@@ -463,6 +508,10 @@ def order_signature(item, msg):
 
 
 def check(item):
+  if item[0] == 'seq':
+    src, viol, first = check_seq(item)
+    out = [util.V('%s|stmt=%s|%s|%s>%s' % (k, item[1], item[2][0], item[3], item[4]), '%s: %s' % (k, m), item, source=src) for k, m in viol]
+    return {'viol': out, 'n': {'evaluations': 3, 'transformation_sequences': 1}, 'outcome': repr(item) + first, 'nontrivial': repr(item)}
   src, viol, status = check_item(item)
   out = []
   for k, m in viol:
@@ -484,7 +533,8 @@ def known_class(item, kind, msg):
   sname, desc, cfg = item
   if kind != 'order':
     return None
-  if contains_lazy(spec_of(desc)):
+  # (a lazy form with trivial operands only is accepted as it is and behaves like a name for its siblings)
+  if contains_lazy(spec_of(desc)) and any(FORM_BY_NAME[d][3] and d not in ('and_trivial', 'ifexp_trivial') for d in desc if isinstance(d, str)):
     return None
   if cfg not in ('default',):
     return 'order|partial-or-custom-configuration-hoists-a-later-operand-over-an-earlier-one-left-in-place'
